@@ -616,7 +616,7 @@ class Interp:
                     raise Undecided("symbolic pointer offset")
                 return self.ptr_offset(a, n, None)
             if op in ("eq", "ne") and isinstance(a, Ptr) and isinstance(b, Ptr):
-                same = a == b
+                same = a.cell is b.cell and a.path == b.path and (a.idx or 0) == (b.idx or 0)      # same address
                 return (ONE if (same == (op == "eq")) else ZERO,)
             raise Undecided("pointer binop %s" % op)
         if not isinstance(a, tuple) or not isinstance(b, tuple):
@@ -700,7 +700,23 @@ class Interp:
                 return a[:sh] + (ZERO,) * (bits - sh)
             if ca is not None and cb is not None and cb and not signed:
                 return bv.const(ca // cb if op == "div" else ca % cb, bits)
-            raise Undecided("%s by non power of two / signed" % op)
+            if ca is not None and cb is not None and cb and signed:
+                def sg(v):
+                    return v - (1 << bits) if v >> (bits - 1) else v
+                x, y = sg(ca), sg(cb)
+                q = abs(x) // abs(y)
+                if (x < 0) != (y < 0):
+                    q = -q
+                return bv.const(q if op == "div" else x - q * y, bits)      # truncation toward zero
+            if signed and cb is not None and 0 < cb < (1 << (bits - 1)) and (cb & (cb - 1)) == 0:
+                # signed division by 2^k rounds toward zero: bias negative operands by 2^k - 1
+                sh = cb.bit_length() - 1
+                bias = tuple(a[-1] if i < sh else ZERO for i in range(bits))
+                q = bv.ashr(bv.add(a, bias), sh)
+                if op == "div":
+                    return q
+                return bv.sub(a, bv.shl(q, sh))
+            raise Undecided("%s by non power of two / signed (%s / %s, %s)" % (op, bv.show_bv(a)[:80] if ca is None else ca, bv.show_bv(b)[:80] if cb is None else cb, t))
         if op == "cmp":
             lt = bv.cmp_bit("slt" if signed else "ult", a, b)
             eq = bv.cmp_bit("eq", a, b)
@@ -755,7 +771,9 @@ class Interp:
             if ty.kind(pt) in ("slice", "str"):
                 return v
             if v.idx is not None:
-                return Ptr(v.cell, v.path, idx=v.idx, meta=None, ety=v.ety)
+                # thin pointer into a run of `ety`; remember the pointee type when it is a different view
+                view = pt if (v.ety is not None and pt != v.ety and ty.get(pt) != ty.get(v.ety)) else None
+                return Ptr(v.cell, v.path, idx=v.idx, meta=None, ety=v.ety, vty=view)
             # thin pointer to a whole array reinterpreted as pointer to its first element
             pf = ty.get(tf)["pointee"]
             if pf != pt and ty.kind(pf) != "slice" and ty.is_arraylike(pf):
@@ -1238,4 +1256,5 @@ class Interp:
 
     def elem_ptr(self, p, i):
         """Thin pointer to element i of the slice p (view-aware)."""
-        return Ptr(p.cell, p.path, idx=p.idx + i * self.view_stride(p.ety, p.vty), meta=None, ety=p.ety)
+        return Ptr(p.cell, p.path, idx=p.idx + i * self.view_stride(p.ety, p.vty), meta=None, ety=p.ety,
+                   vty=p.vty if (p.vty is not None and p.vty != p.ety) else None)
